@@ -271,4 +271,134 @@ theorem findNul_mono {b : Bytes} {off : Nat} :
     · rw [if_neg hz] at h ⊢
       exact ih m (i + 1) k (by omega) h
 
+/-! ### `read` at `base + r` against `slice` at `r` -/
+
+theorem readFile_vs_sliceFile (img : Img) (secs : List Sec) (B soi r min align : Nat)
+    (h0 : 0 < r) (h1 : r ≤ soi) :
+    (isPow2 align = true →
+        readFile img secs B soi (B + r) min align = sliceFile img secs r min align) ∧
+    (¬ isPow2 align = true →
+        readFile img secs B soi (B + r) min align = .panic "read_file:aligned_to" ∧
+        sliceFile img secs r min align = .panic "slice_file:aligned_to") := by
+  have e : B + r - B = r := by omega
+  have hz : ¬ (B + r = 0) := by omega
+  have hb : ¬ (B + r < B ∨ B + r - B > soi) := by omega
+  have hr : ¬ (r = 0) := by omega
+  rw [readFile_eq_tail, sliceFile_eq_tail, if_neg hz, if_neg hb, if_neg hr, e]
+  constructor
+  · intro hp; rw [if_pos hp, if_pos hp]
+  · intro hp; rw [if_neg hp, if_neg hp]; exact ⟨rfl, rfl⟩
+
+theorem readSection_vs_sliceSection (img : Img) (B soi r min align : Nat)
+    (h0 : 0 < r) (h1 : r ≤ soi) :
+    (isPow2 align = true →
+        readSection img B soi (B + r) min align = sliceSection img r min align) ∧
+    (¬ isPow2 align = true →
+        readSection img B soi (B + r) min align = .panic "read_section:aligned_to" ∧
+        sliceSection img r min align = .panic "slice_section:aligned_to") := by
+  have e : B + r - B = r := by omega
+  have hz : ¬ (B + r = 0) := by omega
+  have hb : ¬ (B + r < B ∨ B + r - B > soi) := by omega
+  have hr : ¬ (r = 0) := by omega
+  rw [readSection_eq, sliceSection_eq, if_neg hz, if_neg hb, if_neg hr, e]
+  constructor
+  · intro hp; rw [if_pos hp, if_pos hp]
+  · intro hp; rw [if_neg hp, if_neg hp]; exact ⟨rfl, rfl⟩
+
+/-! ### soundness of the four primitives -/
+
+theorem readFile_sound {img : Img} {secs : List Sec} (hs : ∀ s ∈ secs, s.InRange)
+    {B soi va min align : Nat} {r : Ref} (h : readFile img secs B soi va min align = .ok r) :
+    RefOK img r ∧ min ≤ r.len ∧ r.align = align := by
+  rw [readFile_eq_tail] at h
+  by_cases h0 : va = 0
+  · rw [if_pos h0] at h; cases h
+  rw [if_neg h0] at h
+  by_cases hb : va < B ∨ va - B > soi
+  · rw [if_pos hb] at h; cases h
+  rw [if_neg hb] at h
+  by_cases hp : isPow2 align = true
+  · rw [if_pos hp] at h
+    by_cases ha : (img.base + (va - B)) % align = 0
+    · rw [if_pos ha] at h; exact fileTail_sound hs h
+    · rw [if_neg ha] at h; cases h
+  · rw [if_neg hp] at h; cases h
+
+theorem sliceFile_sound' {img : Img} {secs : List Sec} (hs : ∀ s ∈ secs, s.InRange)
+    {rva min align : Nat} {r : Ref} (h : sliceFile img secs rva min align = .ok r) :
+    RefOK img r ∧ min ≤ r.len ∧ r.align = align := by
+  rw [sliceFile_eq_tail] at h
+  by_cases h0 : rva = 0
+  · rw [if_pos h0] at h; cases h
+  rw [if_neg h0] at h
+  by_cases hp : isPow2 align = true
+  · rw [if_pos hp] at h
+    by_cases ha : (img.base + rva) % align = 0
+    · rw [if_pos ha] at h; exact fileTail_sound hs h
+    · rw [if_neg ha] at h; cases h
+  · rw [if_neg hp] at h; cases h
+
+theorem sliceSection_sound {img : Img} {rva min align : Nat} {r : Ref}
+    (h : sliceSection img rva min align = .ok r) :
+    RefOK img r ∧ min ≤ r.len ∧ r.align = align := by
+  rw [sliceSection_eq] at h
+  by_cases h0 : rva = 0
+  · rw [if_pos h0] at h; cases h
+  rw [if_neg h0] at h
+  by_cases hp : isPow2 align = true
+  · rw [if_pos hp] at h
+    by_cases ha : (img.base + rva) % align = 0
+    · rw [if_pos ha] at h
+      by_cases hb : rva ≤ img.bytes.size ∧ img.bytes.size - rva ≥ min
+      · rw [if_pos hb] at h
+        cases h
+        refine ⟨⟨?_, ha⟩, hb.2, rfl⟩
+        show rva + (img.bytes.size - rva) ≤ img.bytes.size
+        omega
+      · rw [if_neg hb] at h; cases h
+    · rw [if_neg ha] at h; cases h
+  · rw [if_neg hp] at h; cases h
+
+theorem readSection_sound {img : Img} {B soi va min align : Nat} {r : Ref}
+    (h : readSection img B soi va min align = .ok r) :
+    RefOK img r ∧ min ≤ r.len ∧ r.align = align := by
+  rw [readSection_eq] at h
+  by_cases h0 : va = 0
+  · rw [if_pos h0] at h; cases h
+  rw [if_neg h0] at h
+  by_cases hb : va < B ∨ va - B > soi
+  · rw [if_pos hb] at h; cases h
+  rw [if_neg hb] at h
+  by_cases hp : isPow2 align = true
+  · rw [if_pos hp] at h
+    by_cases ha : (img.base + (va - B)) % align = 0
+    · rw [if_pos ha] at h
+      by_cases hc : va - B ≤ img.bytes.size ∧ img.bytes.size - (va - B) ≥ min
+      · rw [if_pos hc] at h
+        cases h
+        refine ⟨⟨?_, ha⟩, hc.2, rfl⟩
+        show va - B + (img.bytes.size - (va - B)) ≤ img.bytes.size
+        omega
+      · rw [if_neg hc] at h; cases h
+    · rw [if_neg ha] at h; cases h
+  · rw [if_neg hp] at h; cases h
+
+/-! ### lists -/
+
+theorem map_range_eq_iff {α : Type} (f : Nat → α) (len : Nat) (out : List α) :
+    (List.range len).map f = out ↔ out.length = len ∧ ∀ i, i < len → out[i]? = some (f i) := by
+  constructor
+  · rintro rfl
+    refine ⟨by simp, ?_⟩
+    intro i hi
+    simp [hi]
+  · rintro ⟨h1, h2⟩
+    apply List.ext_getElem?
+    intro i
+    by_cases hi : i < len
+    · rw [h2 i hi]; simp [hi]
+    · have e1 : out[i]? = none := List.getElem?_eq_none (by omega)
+      rw [e1]
+      simp [hi]
+
 end Pelite.Pe
